@@ -23,7 +23,10 @@ SOURCES = ['prometheus_client/exposition.py']
 
 DECL = '''/-- the parts the temporary name is concatenated from -/
 inductive TmpPart
-  | path | lit (s : List Char) | pid | threadIdent | other (src : List Char)
+  | path | lit (s : List Char)
+  | pid                       -- `os.getpid()` evaluated in the call: the LIVE pid
+  | cachedPid                 -- a module-level name bound to `os.getpid()` at import: a forked child inherits the parent's value
+  | threadIdent | other (src : List Char)
 deriving DecidableEq, Repr
 /-- which path an effect names -/
 inductive PathRef | tmp | target | other
@@ -58,8 +61,9 @@ def _emit(ok, v, why=''):
 
 
 class Site:
-    def __init__(self, path_arg):
+    def __init__(self, path_arg, cached_pid_names=()):
         self.path_arg = path_arg
+        self.cached_pid_names = set(cached_pid_names)
         self.tmp_name = None
         self.data_names = set()      # names bound to generate_latest(registry)
 
@@ -84,6 +88,7 @@ class Site:
                 src = ast.unparse(p.value)
                 if src == self.path_arg: parts.append('.path')
                 elif src == 'os.getpid()': parts.append('.pid')
+                elif src in self.cached_pid_names: parts.append('.cachedPid')
                 elif src in ('threading.current_thread().ident', 'threading.get_ident()'): parts.append('.threadIdent')
                 else: parts.append('.other %s' % chars(src))
             else:
@@ -159,7 +164,12 @@ def generate(repo):
         tree = parse(repo, SOURCES[0])
         f = find_func(tree, 'write_to_textfile')
         if len(f.args.args) < 2: raise Fail('parameters')
-        s = Site(f.args.args[0].arg)
+        # module-level `NAME = os.getpid()`: the pid as it was when the module was imported
+        cached = [t.id for n in tree.body if isinstance(n, ast.Assign) and ast.unparse(n.value) == 'os.getpid()'
+                  for t in n.targets if isinstance(t, ast.Name)]
+        cached += [n.target.id for n in tree.body if isinstance(n, ast.AnnAssign) and n.value is not None
+                   and ast.unparse(n.value) == 'os.getpid()' and isinstance(n.target, ast.Name)]
+        s = Site(f.args.args[0].arg, cached)
         body = [st for st in f.body if not (isinstance(st, ast.Expr) and isinstance(st.value, ast.Constant))]
         if not (len(body) == 2 and isinstance(body[0], ast.Assign) and len(body[0].targets) == 1
                 and isinstance(body[0].targets[0], ast.Name) and isinstance(body[1], ast.Try)):
